@@ -59,7 +59,9 @@ class CazacBasedChannelEstimator:
             self._normalized_ref_seq = False
 
         self._ue_ref_sequence = ue_ref_seq
-        self._size_multiplier = size_multiplier
+        # A plain python integer: a numpy integer of a narrow type (such as
+        # np.uint8) would make `size_multiplier * Nsc` wrap around
+        self._size_multiplier = int(size_multiplier)
 
     @property
     def ue_ref_seq(self) -> np.ndarray:
